@@ -525,6 +525,23 @@ func c15Message(r *fw.Run, key string, b *builtMsg, faultAll bool) {
 			r.Violation(key, []string{"roundtrip_with_trailing_message"}, map[string]any{"ops": b.Ops, "wire": fw.Q(fw.Trunc(enc, 400)), "reencoded": fw.Q(fw.Trunc(re3, 400))},
 				"C15: UnmarshalText(MarshalText(m) + another message) does not reproduce m (the following message leaks into it, or m is cut short)")
 		}
+		// the receiver is used again for a message of the same shape (same ID, type, retry, number of
+		// lines) and other line contents: what it then encodes to is the new message
+		{
+			v := b.Model.Clone()
+			for li := range v.Lines {
+				v.Lines[li].Text = "z" + strings.ReplaceAll(strings.ReplaceAll(v.Lines[li].Text, "\r", "r"), "\n", "n")
+			}
+			if len(v.Lines) > 0 {
+				text2 := v.Encode()
+				if err := m2.UnmarshalText([]byte(text2)); err == nil {
+					if re2 := m2.String(); !c15SameAsModel(re2, v) {
+						r.Violation(key, []string{"reencode_after_redecode_stale"}, map[string]any{"ops": b.Ops, "second_text": fw.Q(fw.Trunc(text2, 300)), "reencoded": fw.Q(fw.Trunc(re2, 300))},
+							"C15: a Message that was encoded, then filled again by UnmarshalText with a message of the same shape, does not encode to the new message")
+					}
+				}
+			}
+		}
 		// decode something else into the same receiver: a clone taken before must keep its content
 		keep := m2.Clone()
 		keepEnc := keep.String()
